@@ -213,6 +213,15 @@ func (spec *Spec) ParsePatterns(ctx context.Context) error {
 			b.Pattern = x
 		}
 	}
+
+	if spec.PatternSyntax != "" {
+		// The patterns are now in parsed form.  Say so; otherwise
+		// another Compile (or a Compile after this spec has been
+		// serialized and loaded again) would parse a pattern
+		// that's a string a second time.
+		spec.PatternSyntax = "none"
+	}
+
 	return nil
 }
 
